@@ -367,6 +367,32 @@ class Verdict:
               flush=True)
         log("  " + what)
 
+    def replay_witnesses(self, exe, findings, already=()):
+        """every listed finding of this property is replayed from its witness (program + expected_stdout [+ files]) so that
+        its KNOWN-FINDING line does not depend on whether this run's generators happened to hit it; a witness that behaves as
+        the property demands now is only logged"""
+        for f in findings:
+            if f.get("property") != self.pid or f["id"] in already or "witness" not in f:
+                continue
+            try:
+                w = json.load(open(os.path.join(ROOT, f["witness"])))
+            except Exception:
+                continue
+            if "program" not in w or "expected_stdout" not in w:
+                continue
+            files = w.get("files") or {}
+            if isinstance(files, str):
+                import ast
+                try:
+                    files = ast.literal_eval(files)
+                except Exception:
+                    files = {}
+            o = run_programs(exe, [(w["program"], (), files)], timeout=15)[0]
+            if o[0] != w["expected_stdout"] or o[1] != "ok":
+                self.known_finding(f["what"] + " [witness]")
+            else:
+                log("witness of listed finding %s now behaves as the property demands" % f["id"])
+
     def known_finding(self, what):
         self.known += 1
         print("KNOWN-FINDING: property=%s %s" % (self.pid, what), flush=True)
